@@ -23,6 +23,10 @@ func aggNameOf(name, kind string) string {
 	o := &Obl{Name: name, Kind: kind}
 	switch o.Kind {
 	case "safety":
+		// one aggregate per kind of runtime panic: safety:index, safety:nil-deref, safety:slice-bounds, ...
+		if i := strings.Index(o.Name, ":"); i >= 0 {
+			return "safety:" + o.Name[i+1:]
+		}
 		return "safety"
 	case "frame":
 		return "frame"
@@ -455,7 +459,7 @@ func cmdCheck(args []string) int {
 			a := ag[n]
 			if a == nil {
 				// the claimed obligation no longer exists (contract clause or code construct removed)
-				if n == "safety" || n == "arith" {
+				if strings.HasPrefix(n, "safety") || n == "arith" || n == "frame" {
 					// no safety-relevant operation left: trivially holds
 					continue
 				}
